@@ -184,6 +184,10 @@ func tokenOptions(o *CoreOptions, r *rand.Rand) {
 	}
 	o.Chains = 2 + r.Intn(2)
 	o.Mesh = r.Intn(2) == 0
+	if r.Intn(4) == 0 {
+		o.ManyChans = true
+		o.Chains = 2
+	}
 	n := 1 + r.Intn(3)
 	perm := r.Perm(len(denomGrammar))
 	for i := 0; i < n; i++ {
